@@ -7,5 +7,5 @@ Extraction "../_work/extract/C17/model.ml"
   parse print safe wrap eval evalc upd_env
   wf_header direction_ok step_val
   current fixed pinned accepted count_tree value_tree magic_of axis_of
-  nest_counts_c nest_gpu_c launch_blocks
+  nest_counts_c nest_gpu_c launch_blocks forked index_at loop_index
   spec_values spec_nest spec_may_reject.
